@@ -8,7 +8,7 @@
    itself for every schedule: whatever a call returns as coming from the peer (nil error, or an
    error built from a response) is the payload of a response frame that carried that call's own
    id, whatever else is in flight and in whatever order frames arrive. *)
-From Verif Require Import Base Link Sys LinkInvR LinkInvQ LinkEvents Pair PairProofs.
+From Verif Require Import Base Link Sys LinkInvR LinkInvQ LinkEvents Pair PairProofs Duo DuoProofs.
 
 Theorem each_call_own_result :
   forall (h : N -> N -> N) s id v,
@@ -114,3 +114,31 @@ Theorem end_to_end_reordered_duplicated :
             dreq p = [1; 0].
 Proof. exact pair_example. Qed.
 Print Assumptions end_to_end_reordered_duplicated.
+
+(* both directions at once (Duo.v: requests and responses of both directions go through the network;
+   every run projects onto a run of Pair.v for either direction): in one and the same run, each
+   side's calls get their own handlers' results from the other side *)
+Theorem both_directions_end_to_end :
+  forall (fnA fnB : nat -> fnkind) callsA callsB l d,
+    drun fnA fnB callsA callsB dinit l = Some d ->
+    (forall i v r oe, In (EvReturn i v r) (evs (da d)) -> genuine r = Some oe ->
+       exists n x, nth_error (dAB d) n = Some i /\
+                   In (EvInvoked n (fnA i) (c_arg (nth i callsA dflt_call))) (evs (db d)) /\
+                   handler_result (fnA i) (c_arg (nth i callsA dflt_call)) = Some (x, oe) /\
+                   v = (if nres1 callsA i then zero else x)) /\
+    (forall j v r oe, In (EvReturn j v r) (evs (db d)) -> genuine r = Some oe ->
+       exists m x, nth_error (dBA d) m = Some j /\
+                   In (EvInvoked m (fnB j) (c_arg (nth j callsB dflt_call))) (evs (da d)) /\
+                   handler_result (fnB j) (c_arg (nth j callsB dflt_call)) = Some (x, oe) /\
+                   v = (if nres1 callsB j then zero else x)).
+Proof. exact duo_both_directions_lemma. Qed.
+Print Assumptions both_directions_end_to_end.
+
+(* non-vacuity: A calls B; while B's handler for that call is inside application code, B calls A;
+   both calls return their own handler's result *)
+Theorem both_directions_nested :
+  exists d, drun du_fnA du_fnB du_callsA du_callsB dinit du_sched = Some d /\
+            In (EvReturn 0 40%N (Some (EApp 6%N))) (evs (db d)) /\
+            In (EvReturn 0 30%N None) (evs (da d)) /\ dAB d = [0] /\ dBA d = [0].
+Proof. exact duo_example. Qed.
+Print Assumptions both_directions_nested.
